@@ -633,3 +633,101 @@ Print Assumptions C03_real_blake_compress_eq_spec.
 Print Assumptions C03_config_blake_compress_eq_spec.
 Print Assumptions C03_real_blake_compress_bytes.
 Print Assumptions C03_capstone_examples.
+
+(** (h) audit C03-F1 / F2 (work package audit-followups): OUTCOME-level statements.
+    The portable machine's fields are [gunwrap filler (portable-model call)]. [generic_oxm p] is the
+    record of the RAW calls (result type [outcome]); [oxm_agree m om] = for every one of the 57
+    operation fields, on well-formed operands, the outcome call returns [Ok] of the pure field's
+    value (records [ovops_agree] x3, [ojops_agree], [onops_agree], [odops_agree], [owops_agree],
+    [ohops_agree], [ouops_agree] of Proofs/FollowupsPortable.v). [oxm_*] = the block functions
+    transcribed in the outcome monad (a [Panic] of any call is the result). [real_oxm p b] = the
+    portable raw calls for [Generic], the total intrinsic-level models wrapped in [Ok] for the x86
+    names. So: on every back end, in every profile, every block function RETURNS, with the model's
+    value - "no back end panics where another returns" is a theorem. *)
+From CC Require Import Proofs.FollowupsPortable Proofs.FollowupsInit.
+
+Theorem C03_portable_fields_return :
+  forall p, oxm_agree (MachineFullGeneric.generic_xm p) (generic_oxm p).
+Proof. exact generic_fields_return. Qed.
+
+Theorem C03_block_functions_return :
+  (forall m1 m2 (om1 : oxmachine m1) (om2 : oxmachine m2),
+     xmachine_refines m1 -> xmachine_refines m2 -> oxm_agree m1 om1 -> oxm_agree m2 om2 ->
+     forall k s, cstore_ok s -> oxm_refill_narrow om1 om2 k s = PpvSoft.Ok (x_refill_narrow m1 m2 k s)) /\
+  (forall m (om : oxmachine m), xmachine_refines m -> oxm_agree m om ->
+     (forall k s, cstore_ok s -> oxm_refill_wide om k s = PpvSoft.Ok (xm_refill_wide m k s)) /\
+     (forall state data, bytes_ok 128 state -> bytes_ok 64 data ->
+        oxm_f8 om e8_sched state data = PpvSoft.Ok (xm_f8 m e8_sched state data)) /\
+     (forall h block t0 t1, bytes_ok 16 (fst h) -> bytes_ok 16 (snd h) -> Forall is_byte block ->
+        t0 < 2 ^ 32 -> t1 < 2 ^ 32 ->
+        oxm_put_block32 om h block (t0, t1) = PpvSoft.Ok (xm_put_block32 m h block (t0, t1))) /\
+     (forall h block t0 t1, bytes_ok 32 (fst h) -> bytes_ok 32 (snd h) -> Forall is_byte block ->
+        t0 < 2 ^ 64 -> t1 < 2 ^ 64 ->
+        oxm_put_block64 om h block (t0, t1) = PpvSoft.Ok (xm_put_block64 m h block (t0, t1))) /\
+     (forall h, bytes_ok 16 (fst h) -> bytes_ok 16 (snd h) -> oxm_finalize32 om h = PpvSoft.Ok (xm_finalize32 m h)) /\
+     (forall h, bytes_ok 32 (fst h) -> bytes_ok 32 (snd h) -> oxm_finalize64 om h = PpvSoft.Ok (xm_finalize64 m h))).
+Proof.
+  split; [exact refill_narrow_returns|].
+  intros m om X A.
+  exact (conj (refill_wide_returns m om X A) (conj (f8_returns m om X A) (conj (put_block32_returns m om X A)
+        (conj (put_block64_returns m om X A) (finalize_returns m om X A))))).
+Qed.
+
+Theorem C03_real_blocks_return :
+  forall p,
+  (forall b1 b2 k s, cstore_ok s ->
+     oxm_refill_narrow (real_oxm p b1) (real_oxm p b2) k s =
+     PpvSoft.Ok (fst (ChaChaGuts.refill (cc_of s) k), store_of (snd (ChaChaGuts.refill (cc_of s) k)))) /\
+  (forall b k s, cstore_ok s ->
+     oxm_refill_wide (real_oxm p b) k s =
+     PpvSoft.Ok (fst (ChaChaGuts.refill_wide (cc_of s) k), store_of (snd (ChaChaGuts.refill_wide (cc_of s) k)))) /\
+  (forall b state data, bytes_ok 128 state -> bytes_ok 64 data ->
+     oxm_f8 (real_oxm p b) e8_sched state data = PpvSoft.Ok (JH.m_f8 state data)) /\
+  (forall b h block t0 t1, bytes_ok 16 (fst h) -> bytes_ok 16 (snd h) -> Forall is_byte block ->
+     t0 < 2 ^ 32 -> t1 < 2 ^ 32 ->
+     oxm_put_block32 (real_oxm p b) h block (t0, t1) = PpvSoft.Ok (h_bytes 4 (Blake.put_block32 (h_words 4 h) block (t0, t1)))) /\
+  (forall b h block t0 t1, bytes_ok 32 (fst h) -> bytes_ok 32 (snd h) -> Forall is_byte block ->
+     t0 < 2 ^ 64 -> t1 < 2 ^ 64 ->
+     oxm_put_block64 (real_oxm p b) h block (t0, t1) = PpvSoft.Ok (h_bytes 8 (Blake.put_block64 (h_words 8 h) block (t0, t1)))) /\
+  (forall b h, bytes_ok 16 (fst h) -> bytes_ok 16 (snd h) ->
+     oxm_finalize32 (real_oxm p b) h = PpvSoft.Ok (Blake.compressor_finalize 4 (h_words 4 h))) /\
+  (forall b h, bytes_ok 32 (fst h) -> bytes_ok 32 (snd h) ->
+     oxm_finalize64 (real_oxm p b) h = PpvSoft.Ok (Blake.compressor_finalize 8 (h_words 8 h))).
+Proof. exact real_blocks_return. Qed.
+
+Theorem C03_real_oxm_is :
+  forall p, real_oxm p Generic = generic_oxm p /\ (forall b, oxm_agree _ (real_oxm p b)).
+Proof. intros p. exact (conj (real_oxm_generic p) (real_oxm_agree p)). Qed.
+
+(** C03-F2: the remaining dispatch site, [init_chacha] (rustcrypto_impl.rs:273, dispatch_light128!;
+    [m.read_le] + [into]): on every refining machine, on the six real ones, under the selection, and
+    in outcome form *)
+Theorem C03_chacha_init_is_model :
+  (forall m, xmachine_refines m -> forall key nonce, bytes_ok 32 key ->
+     x_init_chacha m key nonce = store_of (ChaChaGuts.init_chacha key nonce)) /\
+  (forall p b key nonce, bytes_ok 32 key ->
+     x_init_chacha (real_xinst p b) key nonce = store_of (ChaChaGuts.init_chacha key nonce)) /\
+  (forall c, f_sse2 (xcpu c) = true -> forall key nonce, bytes_ok 32 key ->
+     on_x MLight128 (fun m => x_init_chacha m key) c nonce = Some (store_of (ChaChaGuts.init_chacha key nonce))) /\
+  (forall p b key nonce, bytes_ok 32 key ->
+     oxm_init_chacha (real_oxm p b) key nonce = PpvSoft.Ok (store_of (ChaChaGuts.init_chacha key nonce))).
+Proof.
+  exact (conj init_chacha_is_model (conj real_init_chacha_is_model (conj config_init_chacha_is_model real_init_chacha_returns))).
+Qed.
+
+Theorem C03_real_chacha_init_is_stream_init :
+  forall p b v drounds key nonce, v = VDjb \/ v = VIetf -> bytes_ok 32 key ->
+    x_init_chacha (real_xinst p b) key nonce = store_of (init_of v drounds key nonce).
+Proof. exact real_init_chacha_is_stream_init. Qed.
+
+(** non-vacuity: raw portable calls do panic outside the domain (and then so does the block function,
+    while the projected pure field returns its filler); the outcome form runs *)
+Definition C03_outcome_examples := (portable_calls_can_panic, portable_outcome_runs, init_chacha_runs).
+
+Print Assumptions C03_portable_fields_return.
+Print Assumptions C03_block_functions_return.
+Print Assumptions C03_real_blocks_return.
+Print Assumptions C03_real_oxm_is.
+Print Assumptions C03_chacha_init_is_model.
+Print Assumptions C03_real_chacha_init_is_stream_init.
+Print Assumptions C03_outcome_examples.
